@@ -1,0 +1,13 @@
+//go:build verif
+
+package database
+
+// VerifHook is called at the named verification yield points when set. It is
+// only compiled in with the "verif" build tag.
+var VerifHook func(name string)
+
+func verifPoint(name string) {
+	if h := VerifHook; h != nil {
+		h(name)
+	}
+}
